@@ -312,6 +312,9 @@ func runProgs(cfg *Config, flavour string) *Report {
 	rep.Rule = "fixed shapes (finite/infinite/silent branches in every position, contradictory constraints, recursion bounded only by laziness) + random goal programs of size 2..10 over 12 guarded recursive relations, 1-2 query variables; observed: cell trace under a force budget, take(n) for n=0..4,-1, second run, macro expansion; non-trivial = the trace contains at least one suspension and one answer, or the program calls a recursive relation; distinct by printed program"
 	cf := newCaseFile("From Coq Require Import List NArith ZArith.\nFrom GMK Require Import Term Unify Goal Stream CorrBase Corr01 Corr02.\nFrom GMK.gen Require Import RelMini RelPeano.", "caseP", "checkP")
 	cf.b.WriteString(coqRelLib())
+	if cfg.Only < 0 && (flavour == "C03" || flavour == "C19") {
+		directedTake(rep, flavour)
+	}
 	iso := isolate(flavour, cfg, len(cases), 40, 300*time.Millisecond)
 	for i, c := range cases {
 		desc := fmt.Sprintf("run %s with %d query variable(s), force budget %d", c.G.show(), c.NQ, c.Budget)
@@ -443,4 +446,87 @@ func sortedCounts(m map[string]int) []string {
 	}
 	sort.Strings(ks)
 	return ks
+}
+
+// directedTake: the count clauses of C03 at counts no generated program reaches, and the results of RunGoal / Run as values.
+//   - a request for n answers returns exactly n of them when at least n exist and all of them when fewer exist, for n in the
+//     hundreds and thousands as well (no buffer size, capacity hint or recursion limit stands in for n);
+//   - what one call returned is not changed by later calls (the slices handed out are the caller's).
+func directedTake(rep *Report, flavour string) {
+	states := func(ss []*micro.State) string {
+		parts := make([]string, len(ss))
+		for i, s := range ss {
+			if s == nil {
+				parts[i] = "<nil>"
+				continue
+			}
+			parts[i] = fmt.Sprintf("%s/%d", showSubst(s.Substitutions), s.Counter)
+		}
+		return strings.Join(parts, " ; ")
+	}
+	terms := func(ts []*ast.SExpr) string {
+		parts := make([]string, len(ts))
+		for i, t := range ts {
+			parts[i] = showTerm(t)
+		}
+		return strings.Join(parts, " ")
+	}
+	var fives func(x *ast.SExpr) micro.Goal
+	fives = func(x *ast.SExpr) micro.Goal {
+		return micro.Zzz(micro.Disj(micro.EqualO(x, ast.NewInt(5)), func(s *micro.State) *micro.StreamOfStates { return fives(x)(s) }))
+	}
+	finite := func(k int) func(q *ast.SExpr) micro.Goal { // exactly k answers: q = 0 | q = 1 | ... | q = k-1, right-nested
+		return func(q *ast.SExpr) micro.Goal {
+			g := micro.Goal(micro.FailureO)
+			for i := k - 1; i >= 0; i-- {
+				g = micro.Disj(micro.EqualO(q, ast.NewInt(int64(i))), g)
+			}
+			return g
+		}
+	}
+	for _, n := range []int{255, 256, 257, 300, 1000, 4097} {
+		if got := len(micro.RunGoal(n, micro.AlwaysO)); got != n {
+			rep.violate(-1, "take-exact-n", fmt.Sprintf("RunGoal(%d, alwayso)", n), fmt.Sprintf("%d states returned, exactly %d exist and were asked for", got, n))
+		}
+		if got := len(micro.Run(n, fives)); got != n {
+			rep.violate(-1, "take-exact-n", fmt.Sprintf("Run(%d, fives)", n), fmt.Sprintf("%d answers returned, %d were asked for and infinitely many exist", got, n))
+		}
+		for _, k := range []int{n - 1, n, n + 1, 2 * n} {
+			want := k
+			if n < k {
+				want = n
+			}
+			if got := len(micro.Run(n, finite(k))); got != want {
+				rep.violate(-1, "take-exact-n", fmt.Sprintf("Run(%d, q = 0 | ... | q = %d)", n, k-1), fmt.Sprintf("%d answers returned, want %d (the goal has exactly %d)", got, want, k))
+			}
+		}
+		if got := len(micro.Run(-1, finite(n))); got != n {
+			rep.violate(-1, "take-all", fmt.Sprintf("Run(-1, q = 0 | ... | q = %d)", n-1), fmt.Sprintf("%d answers returned, the goal has exactly %d", got, n))
+		}
+	}
+	rep.hist("directed: counts 255..4097")
+	// results are values
+	g1 := finite(4)(micro.Var(0))
+	r1 := micro.RunGoal(3, g1)
+	t1 := micro.Run(3, finite(7))
+	snap1, snapT1 := states(r1), terms(t1)
+	r2 := micro.RunGoal(5, micro.Conj(micro.EqualO(micro.Var(0), ast.NewSymbol("later")), micro.AlwaysO))
+	snap2 := states(r2)
+	_ = micro.Run(2, fives)
+	_ = micro.RunGoal(6, micro.AlwaysO)
+	_ = micro.RunGoal(-1, finite(9)(micro.Var(1)))
+	if now := states(r1); now != snap1 {
+		rep.violate(-1, "result-changed-by-later-call", "r1 := RunGoal(3, q=0|q=1|q=2|q=3); then RunGoal(5, ...), Run(2, fives), RunGoal(6, alwayso), RunGoal(-1, ...)",
+			fmt.Sprintf("r1 was %s, is now %s", snap1, now))
+	}
+	if now := terms(t1); now != snapT1 {
+		rep.violate(-1, "result-changed-by-later-call", "t1 := Run(3, q=0|...|q=6); then further RunGoal / Run calls", fmt.Sprintf("t1 was %s, is now %s", snapT1, now))
+	}
+	if now := states(r2); now != snap2 {
+		rep.violate(-1, "result-changed-by-later-call", "r2 := RunGoal(5, q = later, alwayso); then further RunGoal / Run calls", fmt.Sprintf("r2 was %s, is now %s", snap2, now))
+	}
+	rep.hist("directed: results of RunGoal / Run re-read after later calls")
+	if flavour == "C19" {
+		directedPeano(rep)
+	}
 }
